@@ -132,6 +132,7 @@ func genConfig(rng *rand.Rand, n int, minByz int) *config {
 type profile struct {
 	pByz, pDrop, pDup, pTimeout float64
 	pSupport                    float64
+	pSync                       float64 // sync bodies (honest for lagging validators, hostile for any)
 	slow                        uint32
 	slowSkip                    float64
 	budget                      int
@@ -145,6 +146,7 @@ func genProfile(rng *rand.Rand, c *config) *profile {
 		pTimeout: []float64{0.01, 0.03, 0.08, 0.2}[rng.IntN(4)],
 		pSupport: []float64{0, 0.3, 0.7}[rng.IntN(3)],
 		slowSkip: []float64{0, 0.5, 0.9}[rng.IntN(3)],
+		pSync:    []float64{0, 0, 0.01, 0.04}[rng.IntN(4)],
 	}
 	if len(c.byz) == 0 {
 		p.pByz = 0
@@ -424,10 +426,12 @@ func (s *sim) runRandom(p *profile) {
 		x := s.rng.Float64()
 		did := false
 		switch {
-		case x < p.pByz:
+		case x < p.pSync:
+			did = s.syncRandom()
+		case x < p.pSync+p.pByz:
 			s.byzRandom(p)
 			did = true
-		case x < p.pByz+p.pTimeout:
+		case x < p.pSync+p.pByz+p.pTimeout:
 			did = s.fireRandom() || s.deliverRandom(p)
 		default:
 			did = s.deliverRandom(p) || s.fireRandom()
@@ -465,6 +469,17 @@ func (s *sim) runSuffix(maxSweeps int) (sweeps int, ok bool) {
 			s.deliver(int(f.to), f.m)
 		}
 		s.fl = s.fl[:0]
+		if s.allDone() {
+			return sweeps, true
+		}
+		// the sync service: a validator whose height is already decided elsewhere is handed the block
+		for _, j := range s.c.correct {
+			if nd := s.nodes[j]; !nd.done && !s.violated {
+				if _, ok := s.decided[nd.h]; ok && sweeps > 0 {
+					s.deliverSync(j)
+				}
+			}
+		}
 		if s.allDone() {
 			return sweeps, true
 		}
